@@ -227,7 +227,7 @@ func (p *HTTPProxy) ServeHTTP(w http.ResponseWriter, r *http.Request) {
 
 	var h http.Handler
 	switch {
-	case upgrade == "websocket" || upgrade == "Websocket":
+	case strings.EqualFold(upgrade, "websocket"):
 		r.URL = targetURL
 		if targetURL.Scheme == "https" || targetURL.Scheme == "wss" {
 			h = newWSHandler(targetURL.Host, func(network, address string) (net.Conn, error) {
